@@ -308,6 +308,14 @@ def corpus():
     # Adam defaults on Rosenbrock (doc example), first steps
     L.append(line_adam(5e-4, 0.9, 0.999, 1e-8, [0.0, 0.0], range(1, 41), rosenbrock()))
     L.append(line_sgd(1e-3, 0.9, True, [0.0, 0.0], range(1, 41), rosenbrock()))
+    # exact landing (seeded change C10b): eps = 0, betas 0.5, lr 0.25, f = x^2, x0 = 0.25: x1 = 0 exactly, gradient
+    # exactly 0 at step 2 while m, v != 0 -- the published recurrence moves on to -0.1443...
+    L.append(line_adam(0.25, 0.5, 0.5, 0.0, [0.25], range(1, 13), sq))
+    L.append(line_adam(0.125, 0.9, 0.999, 2.0 ** -70, [1.125, -0.5], range(1, 13), sepquad([1.0, 2.0], [1.0, -0.125])))
+    L.append(line_adam(0.25, 0.75, 0.5, 0.0, [0.75, 1.0, 0.5], range(1, 13),
+                       add(mul(powi(sub(P(0), C(0.5)), 2), add(C(1.0), mul(C(1.0), P(1)))), powi(sub(P(2), C(1.5)), 2))))
+    L.append(line_sgd(0.25, 0.5, False, [3.0, -1.0], range(1, 13), sepquad([2.0, 2.0], [1.25, 0.5])))
+    L.append(line_sgd(0.25, 0.5, True, [3.0, -1.0], range(1, 13), sepquad([2.0, 1.0], [1.25, 0.5])))
     # Adam::new rejects beta <= 0
     L.append(line_adam(0.1, 0.0, 0.999, 1e-8, [1.0], [1], sq))
     L.append(line_adam(0.1, 0.9, -0.5, 1e-8, [1.0], [1], sq))
@@ -418,6 +426,67 @@ def lm_problem(rng, cover):
     return fam, e, start, xs, ys
 
 
+def sepquad(a, c):
+    """sum_j a_j (p_j - c_j)^2 in the form `a * (p - c).powi(2)`"""
+    return total([mul(C(a[j]), powi(sub(P(j), C(c[j])), 2)) for j in range(len(a))])
+
+
+def exact_landing(rng, count, cover):
+    """All data dyadic, gradients at the start powers of two, so every quantity of the first steps is exact in f64."""
+    L = []
+    dy_beta = [0.5, 0.75, 0.875, 0.9375, 0.25]
+    for i in range(count):
+        kind = ["adam_a", "adam_a", "adam_b", "sgd_c", "sgd_c", "adam_benign"][i % 6]
+        n = rng.randint(1, 4)
+        lr = rng.choice([0.5, 0.25, 0.125, 0.0625])
+        K = rng.choice([6, 12, 20])
+        if kind == "adam_a":
+            # |x0 - c| = lr: with eps = 0 (or absorbed by |g|) Adam's first step is exactly lr for any betas, so x1 = c:
+            # gradient exactly 0 at step 2 with non-zero moments
+            a = [rng.choice([0.5, 1.0, 2.0, 4.0]) for _ in range(n)]
+            c = [rng.randint(-32, 32) / 8.0 for _ in range(n)]
+            land = [rng.chance(0.7) or j == 0 for j in range(n)]   # the other coordinates start elsewhere and move
+            x0 = [c[j] + rng.choice([-1, 1]) * (lr if land[j] else lr * rng.choice([2, 3, 5])) for j in range(n)]
+            b1, b2 = rng.choice([(rng.choice(dy_beta), rng.choice(dy_beta)), (0.9, 0.999), (0.5, 0.5)])
+            eps = rng.choice([0.0, 0.0, 2.0 ** -70, 2.0 ** -80])
+            L.append(line_adam(lr, b1, b2, eps, x0, range(1, K + 1), sepquad(a, c)))
+        elif kind == "adam_b":
+            # f = (x - c)^2 (a + w y) + sum_j b_j (z_j - d_j)^2: step 1 is exactly (-+lr, -lr), so x1 = c and then
+            # df/dx = 2 (x-c)(a + w y) = 0 and df/dy = w (x-c)^2 = 0 exactly, both with non-zero moments, z moves
+            c = rng.randint(-16, 16) / 8.0
+            a, w, y0 = rng.choice([(1.0, 1.0, 1.0), (2.0, 1.0, 2.0), (1.0, 0.5, 2.0), (3.0, 1.0, 1.0)])
+            nz = rng.randint(0, 2)
+            e = mul(powi(sub(P(0), C(c)), 2), add(C(a), mul(C(w), P(1))))
+            x0 = [c + rng.choice([-1, 1]) * lr, y0]
+            for j in range(nz):
+                d = rng.randint(-16, 16) / 8.0
+                e = add(e, mul(C(rng.choice([0.5, 1.0, 2.0])), powi(sub(P(2 + j), C(d)), 2)))
+                x0.append(d + rng.choice([-3, 2, 5]) * 0.125)
+            b1, b2 = rng.choice([(rng.choice(dy_beta), rng.choice(dy_beta)), (0.9, 0.999)])
+            L.append(line_adam(lr, b1, b2, rng.choice([0.0, 2.0 ** -70]), x0, range(1, K + 1), e))
+        elif kind == "adam_benign":
+            # a coordinate that starts on its centre with zero moments: 0/(0+eps) = 0, it must never move
+            a = [rng.choice([0.5, 1.0, 2.0]) for _ in range(n + 1)]
+            c = [rng.randint(-32, 32) / 8.0 for _ in range(n + 1)]
+            x0 = [c[0]] + [c[j] + rng.choice([-1, 1]) * lr * rng.choice([1, 3]) for j in range(1, n + 1)]
+            L.append(line_adam(lr, rng.choice(dy_beta + [0.9]), rng.choice(dy_beta + [0.999]),
+                               rng.choice([1e-8, 2.0 ** -70]), x0, range(1, K + 1), sepquad(a, c)))
+        else:
+            # f = sum a_j (x_j - c_j)^2 with lr = 1/(2a): lr * gradient lands exactly on the minimiser; with momentum
+            # the velocity is non-zero there, so the next step moves although the gradient is exactly 0
+            a0 = rng.choice([0.5, 1.0, 2.0, 4.0])
+            lr = 1.0 / (2 * a0)
+            a = [a0 if (j == 0 or rng.chance(0.5)) else a0 * rng.choice([0.5, 0.25]) for j in range(n)]
+            c = [rng.randint(-32, 32) / 8.0 for _ in range(n)]
+            x0 = [c[j] + rng.choice([-1, 1]) * rng.choice([0.5, 1.0, 1.5, 2.0, 0.375]) for j in range(n)]
+            mode = ["plain", "momentum", "nesterov"][(i // 6) % 3]
+            mom = 0.0 if mode == "plain" else rng.choice([0.5, 0.25, 0.75, 0.875])
+            L.append(line_sgd(lr, mom, mode == "nesterov", x0, range(1, K + 1), sepquad(a, c)))
+            kind = "sgd_c:" + mode
+        cover["exact-landing:" + kind] = cover.get("exact-landing:" + kind, 0) + 1
+    return L
+
+
 def gen(rng, tier):
     lines = []
     cover = {}
@@ -464,6 +533,10 @@ def gen(rng, tier):
         m = 0.0 if mode == "plain" else rng.choice([0.1, 0.3, 0.5])
         lines.append(line_sgd(a, m, mode == "nesterov", theta, range(1, 201), e))
         cover["sgd-earlystop:" + mode] = cover.get("sgd-earlystop:" + mode, 0) + 1
+    # exact-landing stratum: dyadic data such that an iterate lands bit-exactly on a stationary coordinate while the
+    # moments / the velocity are non-zero (gradient component exactly 0.0 on a step that must still move)
+    for l in exact_landing(rng, 40 if not thorough else 400, cover):
+        lines.append(l)
     # Levenberg-Marquardt
     for i in range(60 if not thorough else 450):
         fam, e, start, xs, ys = lm_problem(rng, cover)
